@@ -26,6 +26,19 @@ def build(cmd_name, race=False, timeout=900):
     os.makedirs(BIN, exist_ok=True)
     out = os.path.join(BIN, cmd_name + ("-race" if race else ""))
     args = ["go", "build", "-tags", "verif", "-o", out]
+    alt = os.environ.get("VERIF_REPO")
+    if alt:
+        # development aid (mutant / fix trials on a scratch copy of the repository): same harness,
+        # different replace target.  Registered MANIFEST commands never set this.
+        import zlib; tag = str(zlib.crc32(os.path.abspath(alt).encode()))
+        out = out + "-alt" + tag
+        args[5] = out
+        modfile = os.path.join(BIN, "alt%s.mod" % tag)
+        with open(modfile, "w") as fh:
+            fh.write("module verif/harness\n\ngo 1.20\n\nrequire github.com/tychoish/fun v0.0.0\n\n"
+                     "replace github.com/tychoish/fun => %s\n" % os.path.abspath(alt))
+        open(os.path.join(BIN, "alt%s.sum" % tag), "a").close()
+        args += ["-modfile", modfile]
     if race:
         args.append("-race")
     args.append("./cmd/" + cmd_name)
